@@ -1,5 +1,6 @@
 import Driver.Loop
 import ElaVerif.Model.Reward
+import ElaVerif.Model.ConsensusMode
 open ElaVerif.Fixed64 ElaVerif.Reward Driver
 
 /-- Go/amd64 `int64(f)` (CVTTSD2SI): NaN and out-of-range give 0x8000000000000000 -/
@@ -71,6 +72,13 @@ def fmtRes : CbRes → String
 def fmtOuts (os : List Out) : String :=
   toString os.length ++ String.join (os.map (fun o => " " ++ toString (toInt o.value) ++ " " ++ fmtAddr o.addr))
 
+/-- the steps of an `rvt` op on the consensus-mode model -/
+def runSteps : List String → ElaVerif.ConsensusMode.St → ElaVerif.ConsensusMode.St
+  | [], s => s
+  | "e" :: rest, s => runSteps rest (ElaVerif.ConsensusMode.connect s .plain)
+  | "p" :: rest, s => runSteps rest (ElaVerif.ConsensusMode.connect s .revertToPow)
+  | r :: rest, s => runSteps rest (ElaVerif.ConsensusMode.rollback ((r.drop 1).toNat?.getD 0) s)
+
 def stepCore : List String → String
   | ["rew", newH, halvH, interval, old, h] =>
     match nat? newH, nat? halvH, nat? interval, int? old, nat? h with
@@ -131,6 +139,15 @@ def stepCore : List String → String
 def stepC11 : List String → String
   | "cbn" :: _net :: rest => stepCore ("cb" :: rest)
   | "asgn" :: _net :: rest => stepCore ("asg" :: rest)
+  | "rvt" :: k :: rest =>
+    match nat? k with
+    | some k =>
+      let s := runSteps (rest.take k) ⟨false, []⟩
+      match rest.drop k with
+      | h :: active :: tail =>
+        (if s.pow then "pow " else "dpos ") ++ stepCore ("cb" :: h :: active :: (if s.pow then "1" else "0") :: tail)
+      | _ => "bad-op"
+    | none => "bad-op"
   | t => stepCore t
 
 def main : IO Unit := runPure stepC11
